@@ -42,4 +42,19 @@ PROPS = {
                      "device reads are whole chunks of at most len(b) bytes; blocking/timing of the serial port is not modelled"],
         "assumptions": ["the caller's buffer has len(b) >= encoded frame + 1 and maxMessageLength >= encoded frame - 1 (Fits)"],
     },
+    "C17": {
+        "required_theorems": ["c17_roundtrip", "c17_encode_valid", "c17_detects", "c17_subject_safe", "c17_detects_safe",
+                              "c17_documented_subjects_safe", "c17_unsafe_witness", "gen_serial_pinned"],
+        "n": {"quick": 20000, "thorough": 200000},
+        "thorough_seeds": 3,
+        "rule": "crc: model LFSR vs crc16.ChecksumCCITT on 1-2 byte and random inputs; rt: SerialEncode->SerialDecode->PbDecodeSerialPoints on "
+                "documented and hostile subjects (16/17 bytes, embedded NUL, log) x 0-3 generated points (values incl. float32 limits, times incl. int64 limits, data, origin); "
+                "dec: decoder on truncated/random/log-shaped bytes; det: real packets on documented subjects XOR 1-bit, 2-bit, <=16-bit bursts (biased to subject field "
+                "and trailer), crafted subject->log rewrites, and heavier damage; distinct = distinct case line; every case runs the real codec",
+        "trusted": ["kjx98/crc16 table-driven update (modelled bit-serially; equality exercised by the crc cases)",
+                    "protobuf-go Marshal/Unmarshal of SerialPoints (payload is opaque bytes in the model; see C12)"],
+        "modelled": ["client/serial-wrapper.go SerialEncode/SerialDecode modelled by hand (Siot/Model/Serial.lean); payload codec not modelled here",
+                     "bursts are in transmission order (UART: least significant bit first), which is the order the reflected CRC processes"],
+        "assumptions": ["packets shorter than 32767 bits (4095 bytes) for the two-bit guarantee", "subjects without leading/trailing NUL"],
+    },
 }
